@@ -193,18 +193,27 @@ impl JsArgs for [JsValue] {
 #[allow(dead_code)]
 pub(crate) trait JsExpect<V> {
     /// "expects" a `JsResult`, wrapping the error with a `PanicError`.
-    fn js_expect<S: Into<Box<str>>>(self, msg: S) -> StdResult<V, PanicError>;
+    ///
+    /// Errors that scripts cannot catch (runtime limits, earlier internal errors) are a
+    /// legitimate outcome of any step that runs code and are passed on unchanged.
+    fn js_expect<S: Into<Box<str>>>(self, msg: S) -> StdResult<V, JsError>;
 }
 
 impl<V> JsExpect<V> for JsResult<V> {
-    fn js_expect<S: Into<Box<str>>>(self, msg: S) -> StdResult<V, PanicError> {
-        self.map_err(|err| PanicError::new(msg).with_source(err))
+    fn js_expect<S: Into<Box<str>>>(self, msg: S) -> StdResult<V, JsError> {
+        self.map_err(|err| {
+            if err.is_catchable() {
+                PanicError::new(msg).with_source(err).into()
+            } else {
+                err
+            }
+        })
     }
 }
 
 impl<V> JsExpect<V> for Option<V> {
-    fn js_expect<S: Into<Box<str>>>(self, msg: S) -> StdResult<V, PanicError> {
-        self.ok_or_else(|| PanicError::new(msg))
+    fn js_expect<S: Into<Box<str>>>(self, msg: S) -> StdResult<V, JsError> {
+        self.ok_or_else(|| PanicError::new(msg).into())
     }
 }
 
